@@ -5,6 +5,7 @@ import (
 	"fmt"
 	"sort"
 	"strings"
+	"sync"
 
 	"github.com/kelindar/column"
 	"github.com/kelindar/column/commit"
@@ -144,6 +145,7 @@ func (p *concProgram) String() string {
 
 type concGenCfg struct {
 	Tasks     int
+	MinTxns   int // 0 = 1
 	MaxTxns   int
 	Deletes   bool
 	Inserts   bool
@@ -178,7 +180,7 @@ func genConcProgram(t *rapid.T, init *concInit, cfg concGenCfg) *concProgram {
 	}
 	seq := 0
 	for task := 0; task < cfg.Tasks; task++ {
-		ntx := rapid.IntRange(1, cfg.MaxTxns).Draw(t, "ntxns")
+		ntx := rapid.IntRange(max(1, cfg.MinTxns), cfg.MaxTxns).Draw(t, "ntxns")
 		var txns []TxnSpec
 		var yields [][]bool
 		for k := 0; k < ntx; k++ {
@@ -246,6 +248,7 @@ type concRun struct {
 	Clocks  []int            // logical time of each recorded commit (index = Seq - N0)
 	Extra   map[string]any
 	BodyErr string
+	errMu   sync.Mutex
 	ok      bool
 }
 
@@ -283,7 +286,9 @@ func startConcRun(p *concProgram, capacity int) *concRun {
 					}
 				})
 				if err != nil {
+					r.errMu.Lock()
 					r.BodyErr = fmt.Sprintf("task %d txn %d: Query returned %v", ti, k, err)
+					r.errMu.Unlock()
 				}
 				r.Res[ti][k] = res
 				r.Ack[ti][k] = r.S.Tick()
@@ -449,8 +454,8 @@ func decodeCommitOps(rc recCommit) []decodedOp {
 	return out
 }
 
-// buildConcInitDense: block 0 completely full, block 1 holds rows at the first ten
-// offsets only. The lowest free offset is then 16394, right behind rows that
+// buildConcInitDense: block 0 completely full, block 1 holds rows at the first 2+2*tasks
+// offsets only (ten for four tasks). The lowest free offset is then right behind rows that
 // tasks own and delete - so an insert that runs while such a delete is in flight
 // is handed exactly that offset if the delete's fill bit was released too early.
 func buildConcInitDense(tasks int) *concInit {
@@ -462,7 +467,7 @@ func buildConcInitDense(tasks int) *concInit {
 	c := newCollection(sch, column.Options{})
 	defer c.Close()
 	m := NewModel(sch)
-	n := 16384 + 10
+	n := 16384 + 2 + 2*tasks // every owned row exists
 	c.Query(func(txn *column.Txn) error {
 		for i := 0; i < n; i++ {
 			txn.Insert(func(r column.Row) error {
